@@ -21,7 +21,7 @@ func opCoord(r *Rng) int64 {
 	}
 	return v
 }
-func opPt(r *Rng) P { return P{X: opCoord(r), Y: opCoord(r)} }
+func opPt(r *Rng) P           { return P{X: opCoord(r), Y: opCoord(r)} }
 func smallPt(r *Rng, k int) P { return P{X: int64(r.Intn(k)), Y: int64(r.Intn(k))} }
 
 func init() {
